@@ -98,8 +98,10 @@ struct Rep {
         JV_FUNCTIONS(JV_BIND)
 #undef JV_BIND
         jv_info(&info);
+        jv_bind_entry_mode(&entry_mode_cell);
         return true;
     }
+    int entry_mode_cell = 0;   // the adapter's entry-mode switch lives here, not in the replica's (write-protected) image
     size_t sz(int k) const { return info.size[k]; }
     // apply the dispatch setting this replica instance stands for (no-op when it has none)
     void apply_dispatch() { if (want_dispatch >= 0 && jv_get_dispatch() != want_dispatch) jv_set_dispatch(want_dispatch); }
